@@ -26,6 +26,8 @@ fn spaces(tier: Tier) -> Vec<Space> {
             Space { alpha: "CASC", depth: 3 },
             Space { alpha: "TERN", depth: 2 },
             Space { alpha: "TERN", depth: 3 },
+            Space { alpha: "CASE", depth: 2 },
+            Space { alpha: "CASE", depth: 3 },
             Space { alpha: "QSYM", depth: 3 },
             Space { alpha: "QSYM", depth: 4 },
             Space { alpha: "CROSS", depth: 3 },
@@ -52,6 +54,8 @@ fn spaces(tier: Tier) -> Vec<Space> {
             Space { alpha: "CASC", depth: 3 },
             Space { alpha: "TERN", depth: 2 },
             Space { alpha: "TERN", depth: 3 },
+            Space { alpha: "CASE", depth: 2 },
+            Space { alpha: "CASE", depth: 3 },
             Space { alpha: "QSYM", depth: 3 },
             Space { alpha: "QSYM", depth: 4 },
             Space { alpha: "CROSS", depth: 3 },
